@@ -1431,6 +1431,11 @@ func (w *World) adminOp(c *simClient, it *Item) {
 						return true, true, nil
 					case "hook:set":
 						return true, map[any]struct{}{"a": {}, "b": {}}, nil
+					case "hook:set2":
+						// members that only RESP3 has types for
+						return true, map[any]struct{}{1.5: {}, true: {}, "gamma": {}, int64(3): {}}, nil
+					case "hook:map2":
+						return true, map[string]any{"x": 0.25, "y": []any{false, 1.5}, "z": map[any]struct{}{2.5: {}}}, nil
 					case "hook:list":
 						return true, []any{true, 0.5, map[string]any{"k": 1.25}}, nil
 					}
